@@ -351,7 +351,7 @@ impl Check for C09Check {
         }
     }
     fn rule(&self) -> &'static str {
-        "case = seeded program (3-10 variables of 13 retainable shapes, each global or program-level with qualifier RETAIN/NON_RETAIN/none/PERSISTENT, a SINGLE variable with seeded initial value and qualifier, event task + cyclic task + background program, task-bound FB instance, %I/%Q bindings in three programs, two VAR_ACCESS paths) x history of cycles with input bytes / SINGLE writes / access-path writes, warm and cold restarts, retain saves (explicit and periodic), power cycles, a value fault; after every restart or power cycle a fresh twin runtime + the model's retained set is driven in lock-step and compared after every operation; later additions: PROGRAM RETAIN/NON_RETAIN instance qualifiers, failing saves and the immediate retry (followed by a power cycle), a third of the cases with the real FileRetainStore behind the store seam, a configuration-level FB instance owning %I/%Q variables and an access path, warm restart through the resource loop's restart path; distinct non-trivial = distinct (program shape, restart kind, state-changing cycles before it >= 1) hashes"
+        "case = seeded program (3-10 variables of 13 retainable shapes, each global or program-level with qualifier RETAIN/NON_RETAIN/none/PERSISTENT, a SINGLE variable with seeded initial value and qualifier, event task + cyclic task + background program, task-bound FB instance, %I/%Q bindings in three programs, two VAR_ACCESS paths) x history of cycles with input bytes / SINGLE writes / access-path writes, warm and cold restarts, retain saves (explicit and periodic), power cycles, a value fault; after every restart or power cycle a fresh twin runtime + the model's retained set is driven in lock-step and compared after every operation; later additions: PROGRAM RETAIN/NON_RETAIN instance qualifiers, failing saves and the immediate retry (followed by a power cycle), a third of the cases with the real FileRetainStore behind the store seam, a configuration-level FB instance owning %I/%Q variables and an access path, warm restart through the resource loop's restart path; round 3: a sixth of the cases without any TASK, two globals at direct addresses (one RETAIN) that accumulate; distinct non-trivial = distinct (program shape, restart kind, state-changing cycles before it >= 1) hashes"
     }
     fn assumptions(&self) -> Vec<&'static str> {
         vec![
